@@ -1,6 +1,8 @@
 package p_oracle
 
 import (
+	"regexp"
+	"sort"
 	"fmt"
 	"strings"
 
@@ -17,6 +19,23 @@ import (
 type startGen struct {
 	t    *rapid.T
 	next int
+	// baseEdges: indexed IDs `(a -> b)[i]` of the connections written at the root of index.d2
+	baseEdges []string
+}
+
+var rootEdgeLine = regexp.MustCompile(`^([A-Za-z0-9_.]+) (->|<-|--|<->) ([A-Za-z0-9_.]+)(:|$)`)
+
+func rootEdges(text string) []string {
+	var out []string
+	count := map[string]int{}
+	for _, l := range strings.Split(text, "\n") {
+		if m := rootEdgeLine.FindStringSubmatch(l); m != nil {
+			k := m[1] + " " + m[2] + " " + m[3]
+			out = append(out, fmt.Sprintf("(%s)[%d]", k, count[k]))
+			count[k]++
+		}
+	}
+	return out
 }
 
 func (s *startGen) marker() string {
@@ -135,6 +154,27 @@ func (s *startGen) diagram(maxObj, maxEdges int) (text string, rootPaths []strin
 			rootLines = append(rootLines, a.path()+" "+e.Arrow+" "+b.path()+tail)
 		}
 	}
+	// children that exist only as the end of a connection written inside a container's block
+	// (never declared as a key), named like something in the enclosing scope half of the time
+	var all []*pnode
+	for _, p := range byPath {
+		all = append(all, p)
+	}
+	sort.Slice(all, func(i, j int) bool { return all[i].path() < all[j].path() })
+	for _, p := range all {
+		if len(p.kids) == 0 || p.flat || gen.Pick(t, "edgeonly", 5, 1) == 0 {
+			continue
+		}
+		sibs := roots
+		if p.parent != nil {
+			sibs = p.parent.kids
+		}
+		end := fmt.Sprintf("eo%d", len(p.inner)+1)
+		if rapid.Bool().Draw(t, "eocollide") {
+			end = rapid.SampledFrom(sibs).Draw(t, "eosib").n.Key
+		}
+		p.inner = append(p.inner, fmt.Sprintf("eosrc -> %s: %s", end, gen.QuoteValue(s.marker())))
+	}
 	var sb strings.Builder
 	for _, a := range d.RootAttrs {
 		sb.WriteString(a[0] + ": " + a[1] + "\n")
@@ -247,7 +287,12 @@ func (s *startGen) boards(depth int, base []string, containers []string) string 
 						break
 					}
 					p := rapid.SampledFrom(base).Draw(t, "ovtarget")
-					switch gen.Pick(t, "ovkind", 2, 2, 1, 1) {
+					switch gen.Pick(t, "ovkind", 2, 2, 1, 1, 2) {
+					case 4:
+						// a local reference to a connection the board inherits
+						if len(s.baseEdges) > 0 {
+							content += rapid.SampledFrom(s.baseEdges).Draw(t, "ovedge") + rapid.SampledFrom([]string{".style.opacity: 0.4", ".style.stroke: red", ": {style.animated: true}"}).Draw(t, "ovedgeattr") + "\n"
+						}
 					case 0:
 						content += p + ".style.opacity: 0.4\n"
 					case 1:
@@ -302,6 +347,7 @@ func genStart(t *rapid.T, prop string) map[string]string {
 		}
 	}
 	if mode == 1 || (mode == 2 && (prop == "C41" || gen.Pick(t, "imp+boards", 2, 1) == 1)) {
+		s.baseEdges = rootEdges(text)
 		text += s.boards(0, roots, conts)
 	}
 	files["index.d2"] = text
@@ -482,6 +528,25 @@ func coreCases() []Case {
 		for a := 0; a < 5; a++ {
 			out = append(out, Case{Files: map[string]string{"index.d2": "...@imp\nu: \"L1\" {\n  v: \"L2\"\n}\nu.v -> m: \"L3\"\n", "imp.d2": imp, "imp2.d2": imp},
 				Ops: []Op{{K: opCreateObj, N: 1}, {K: k, A: a, B: a, N: a, T: a, V: a, F: a % 4}}})
+		}
+	}
+	// children that exist only as the end of a connection written in a container's block (they
+	// cannot be declared by a key without losing that property, so they carry no marker): every
+	// kind of edit on the container, its children' namesakes and the connection, with and without
+	// a namesake in the enclosing scope, at the root and one level down
+	for _, txt := range []string{
+		"a: \"L1\" {\n  eosrc -> x: \"L2\"\n}\nx: \"L3\"\nb: \"L4\" {\n  c: \"L5\"\n}\n",
+		"a: \"L1\" {\n  eosrc -> eodst: \"L2\"\n  k: \"L6\"\n}\nx: \"L3\"\nb: \"L4\" {\n  c: \"L5\"\n}\n",
+		"p: \"L1\" {\n  a: \"L2\" {\n    eosrc -> x: \"L3\"\n    x -> eosrc: \"L7\"\n  }\n  x: \"L4\"\n}\nb: \"L5\" {\n  c: \"L6\"\n}\n",
+	} {
+		for _, k := range []int{opMove, opRename, opDeleteObj, opCreateEdge, opReconnect} {
+			for a := 0; a < 5; a++ {
+				for b := 0; b < 7; b += 2 {
+					for f := 0; f < 2; f++ {
+						one(txt, Op{K: k, A: a, B: b, N: a, F: f})
+					}
+				}
+			}
 		}
 	}
 	return out
